@@ -3,6 +3,8 @@ E_MODEL = "machine arithmetic treated as mathematical: floats, Quantity magnitud
 PY_SEM = "Python semantics as encoded by pyvc (DESIGN 3.1): left-to-right evaluation, MRO from the AST, no monkey-patching, unbounded ints"
 STUBS = "assumed contracts of NumPy/Astropy/Dask calls (pyvc/stubs_*.py), cross-checked by the bounded layer only"
 
+from props import c17 as _c17
+
 PROPS = {
     "C01": {"level": "proof", "modules": ["contracts.core"],
             "technique": "contract-based deductive verification (AST->z3/cvc5 obligations against spec functions) + bounded differential replay",
@@ -32,6 +34,15 @@ PROPS = {
             "trusted_base": [E_MODEL, PY_SEM, STUBS, "z3/cvc5 soundness"],
             "assumptions": ["complex arithmetic exact (model E); bounded layer tolerance 1e-5 relative to the largest sample"],
             "bounded_bounds": "N in {0..13}, nchan 1..3, extra dim 1..3, coded pseudo-random samples in [-1,1)"},
+    "C17": {"level": "proof", "modules": ["contracts.core"],
+            "technique": "contract-based deductive verification of __array_ufunc__/__array__ against a spec over an uninterpreted ufunc + bounded sweep of real NumPy ufuncs",
+            "level_text": "for an arbitrary element-wise ufunc (uninterpreted, 1-3 inputs, 1-2 outputs) every operand arrangement, out= form, class and back end: the wrapper unwraps every signal, applies the ufunc to the data, returns the given out objects untouched in identity/metadata or wraps in type(self).like(self, .); non-call methods and matmul return NotImplemented; __array__ accepts the (dtype, copy) protocol. NumPy's own dispatch order and casting are assumed and exercised only by the bounded sweep",
+            "level_note": "trusted: NumPy dispatches __array_ufunc__ to the first signal operand and turns NotImplemented into TypeError (bounded sweep only); pyvc encoding; solver",
+            "trusted_base": [E_MODEL, PY_SEM, STUBS, "NumPy ufunc dispatch protocol (NEP 13)", "z3/cvc5 soundness"],
+            "assumptions": ["a ufunc is an arbitrary element-wise function of the unwrapped operands (uninterpreted)"],
+            "bounded_per_instance": {"quick": 0, "thorough": 0},
+            "bounded_extra": [_c17.bounded],
+            "bounded_bounds": "23 NumPy ufuncs x 5 classes x NumPy/Dask x 6 operand arrangements; out=, in-place chains, reduce/accumulate/outer/matmul refusals, asarray protocol"},
 }
 
 NOT_APPLICABLE = {}
